@@ -12,6 +12,8 @@ pub fn scenario(g: &mut G, ctx: &RunCtx) -> RunReport {
     let mut plan = bodyx::gen_plan(g, max);
     plan.faults.read_eintr.clear();
     plan.rereads = 0;
+    // the oracle reads the delivery times of the first connection
+    plan.prelude = None;
     if plan.read_api == 2 {
         // take(n).read_to_end() waits for n bytes by contract
         plan.read_api = 1;
